@@ -62,7 +62,6 @@ def gen(**kw):
 
 
 def scenarios(quick):
-    u = 1 if quick else 2
     files = dict(GroupMembers="{}", MaxInputs=0, InGroupMembers="{}")
     groups = dict(Names="{}", MaxInputs=0, InGroupMembers="{}", Exts="{}")
     inputs = dict(Names=S(["o"]), GroupMembers="{}", Exts="{}", Dests="{}")
@@ -70,7 +69,7 @@ def scenarios(quick):
         # name, spec constants, generator constants, input paths, is the universe "clean" (all invariants must hold on the spec)
         ("files", base(**files, **({"Names": S(["w's $x"])} if quick else {})), gen(MaxUses=2), [], False),
         ("groups", base(**groups), gen(MaxUses=2, MaxExt=0, DefMembers="FALSE"), [], True),
-        ("inputs", base(**inputs), gen(MaxUses=u, MaxExt=0, MaxWrites=0), ALL_PATHS if not quick else [P_REMOTE, P_LOCAL_SAME, P_IDX], False),
+        ("inputs", base(**inputs), gen(MaxUses=1, MaxExt=0, MaxWrites=0), [P_REMOTE, P_LOCAL_SAME, P_IDX] if quick else ALL_PATHS, False),
     ]
     if not quick:
         sc.append(("groups-members", base(**groups), gen(MaxUses=1, MaxExt=0, DefMembers="TRUE"), [], True))
@@ -95,7 +94,7 @@ def run(ctx):
         ctx.add_tlc(res, f"exhaustive canonical programs '{name}' (no late add_extension, distinct basenames) + Batch.run() on the spec, "
                          f"all C18 invariants: {len(progs)} programs")
         for v in res.violations:
-            ctx.violation(f"spec:{v.name}", {"scenario": name, "config": {**cc, **cg}, "trace": [(h, s) for h, s in v.trace][-4:]})
+            ctx.violation(f"spec:{v.name}", {"scenario": name, "config": {**cc, **cg}, "trace": [(h, str(tlc.tlaval.to_py(s))[:1500]) for h, s in v.trace][-4:]})
         if not res.violations:
             ctx.require_covered(res, gen_actions, f"BatchDslGen {name}")
         if not clean:
@@ -117,7 +116,7 @@ def run(ctx):
                                                                    "length": len(res.violations[0].trace)})
     simc = base(MaxJobs=3)
     simg = gen(MaxDeps=2, MaxUses=3, MaxEdges=4, MaxExt=2, MaxWrites=2, MaxRefs=2, MinLen=9, UsedDefsOnly="FALSE")
-    progs, res = _dsl.generate(ctx, wd, "sim3", {**simc, **simg}, simulate="num=60" if ctx.quick else "num=1500",
+    progs, res = _dsl.generate(ctx, wd, "sim3", {**simc, **simg}, simulate="num=60" if ctx.quick else "num=500",
                                seed=ctx.seed + 1, inpaths=ALL_PATHS, depth=40)
     ctx.add_tlc(res, f"simulated 3-job programs over the whole universe: {len(progs)} programs")
     if ctx.quick:
